@@ -40,7 +40,8 @@ CONTRACTS = {
                       ensures=['%s.f0 < 64' % RV, '(%s.f1 & 1) == 1' % RV, '(%s.f1 << %s.f0) == v_n' % (RV, RV)], assigns='',
                       loops={0: dict(invariant=['m_retval.f0 < 64 && m_retval.f1 != 0 && (m_retval.f1 << m_retval.f0) == m_n_addr'],
                                      decreases='64 - m_retval.f0', assigns='m_retval')}),
-    'bool_sign': dict(requires=['1'], ensures=['(int)%s == (v_x ? 1 : -1)' % RV], assigns=''),
+    'bool_sign': dict(requires=['v_x == 0 || v_x == 1'],   # a valid bool (CBMC's _Bool object may hold other bit patterns)
+                      ensures=['(int)%s == (v_x ? 1 : -1)' % RV], assigns=''),
     'pow_mod': dict(requires=['v_n > 1'], ensures=['%s < v_n' % RV], assigns='',
                     loops={0: dict(invariant=['m_result < m_n_addr && m_base_addr < m_n_addr && m_n_addr > 1'], decreases='m_exp_addr',
                                    assigns='m_result, m_base_addr, m_exp_addr')}),
